@@ -157,6 +157,7 @@ pub fn run(run: &mut Run) {
             }
         }
     }
+    concurrent_clients_on_the_primary(run, quick);
     run.cov("scripts", json!(scs.len()));
     run.cov("nodes", json!(nodes));
     run.cov_add("states", total.states);
@@ -170,4 +171,39 @@ pub fn run(run: &mut Run) {
     run.sample(json!({"script": scs[0].name(), "alphabet": op_menu()}));
     run.assume("the cluster is brought up through the real join / election path with a fixed delivery policy, then every FIFO-respecting interleaving of supervisor, replication-loop, link-delivery and client transitions is explored");
     run.assume("link model = handshake lines of auth_on_replication + FIFO queues + ok/error line per command + EOF sequence of tcp_ops::handle_client (DESIGN 6.1)");
+}
+
+/// Clients of the primary running at the same time (the NET stage above runs one handler at a
+/// time): every interleaving, at lock granularity plus the point between "applied" and "queued for
+/// the secondaries", of two clients issuing one or two commands on one key; afterwards a replica
+/// that receives the primary's replication queue in order must hold what the primary holds.
+fn concurrent_clients_on_the_primary(run: &mut Run, quick: bool) {
+    use super::c02_ilv::{run_configs, Config};
+    use super::conc::*;
+    let setup = Setup { strategy: "none", init: vec!["set k 1".into(), "set k 1".into(), "set c 5".into()], session_init: (0..2).map(|_| vec!["use-db t tok".to_string()]).collect(), check_replica: true };
+    let menu = |t: usize| -> Vec<String> { vec![format!("set k {}", 10 + t), "increment k".to_string(), "increment c".to_string(), "remove k".to_string(), format!("set-safe k 2 s{}", t)] };
+    let mut configs = vec![];
+    for a in menu(0).iter() {
+        for b in menu(1).iter() {
+            configs.push(Config { linearizable: false, programs: vec![vec![a.clone()], vec![b.clone()]], bound: if quick { 2 } else { 99 }, max_exec: 100_000, budget: Duration::from_secs(if quick { 8 } else { 120 }) });
+        }
+    }
+    if !quick {
+        for a in menu(0).iter() {
+            for a2 in menu(0).iter() {
+                for b in menu(1).iter() {
+                    configs.push(Config { linearizable: false, programs: vec![vec![a.clone(), a2.clone()], vec![b.clone()]], bound: 2, max_exec: 100_000, budget: Duration::from_secs(120) });
+                }
+            }
+        }
+    }
+    let none = |_: &[OpRec], _: &FinalView, _: &[String]| -> Option<(String, String)> { None };
+    let (ex, pts, capped, _) = run_configs(run, "C04", &setup, &configs, &none);
+    run.cov("concurrent_client_configs", json!(configs.len()));
+    run.cov("concurrent_client_executions", json!(ex));
+    run.cov("concurrent_client_configs_capped", json!(capped));
+    run.cov_add("states", ex);
+    run.cov_add("transitions", pts);
+    run.cov_add("traces_validated_against_impl", ex);
+    run.assume("concurrent clients: scheduling points are the lock acquisitions of the shim RwLock and the point between applying a command and queueing it for replication; the replica is a fresh node fed the primary's queue over one FIFO link");
 }
